@@ -495,11 +495,12 @@ VCLAUSE(law_general, 60, 600, 6000, "a loose rejection envelope (yMax >= 10 max 
 		c.cls(bounded ? "Sample_Metropolis_bounded" : "Sample_Metropolis_unbounded");
 		VLOG(c, "Sample_Metropolis of " << T.name << " sigma=" << sigma << " thinning=" << thin << " n=" << n << " bounded=" << bounded);
 		// the requested domain may be wider than the support of the density (density exactly zero in the margins)
-		double margin = (bounded && s.coin()) ? w * s.uniform(0.3, 1.5) : 0.0;
+		double margin = (bounded && s.coin()) ? w * (s.coin() ? s.uniform(0.3, 1.5) : s.uniform(2.0, 6.0)) : 0.0;
 		if(margin > 0)
 		{
+			// the chain starts uniformly in the domain, i.e. usually where the density vanishes, and has to walk into the support
 			c.cls("metropolis_domain_wider_than_support");
-			burn = 3000;
+			burn = 20000;
 		}
 		std::vector<double> v;
 		VMUST_RETURN("Sample_Metropolis", v = Sample_Metropolis(g, T.pdf, sigma, (unsigned) n, thin, burn, bounded ? std::vector<double> {T.lo - margin, T.hi + margin} : std::vector<double> {}));
